@@ -10,7 +10,7 @@ open Scc
 
 variable {q : Core.Prog} {p : Fun.CheckedProgram}
 
-abbrev R (p : Fun.CheckedProgram) (q : Core.Prog) : Fun.State → Core.State → Prop := SRel (GP p) q
+abbrev R (p : Fun.CheckedProgram) (q : Core.Prog) : Fun.State → Core.State → Prop := SRel (GP p) p q
 
 /-- the Core program declares the translated codata types of the source program -/
 def CodOK (p : Fun.CheckedProgram) (q : Core.Prog) : Prop :=
@@ -30,10 +30,10 @@ section
 variable (hcod : CodOK p q)
   {env : Fun.Env} {K : Fun.Stack} {ρ0 ρ : CEnv} {n : Nat} {out : Out} {cp : Bool} {μ : Nat} (Sx : Core.Term → Core.Stmt)
   (hsp : ∀ A, A.isVar = false → (Sx A).split = some (.prd, A, Sx))
-  (hK : ∀ τ, KRel (GP p) q (n + 1) K
+  (hK : ∀ τ, KRel (GP p) p q (n + 1) K
     (.mutilde ρ (Core.sigmaName n) (Sx (.var .prd (Core.sigmaName n) τ))))
   (hF : ∀ ρ' n' z τ v V, n ≤ n' → SigExt n ρ ρ' → Core.Env.lookup ρ' z = .ok V →
-    VRel (GP p) q n v V → (z.name = sig → z.id < n') →
+    VRel (GP p) p q n v V → (z.name = sig → z.id < n') →
     Chunk p q (R p q) true cp μ (.ret v K) ⟨Sx (.var .prd z τ), ρ', out, n'⟩)
 include hsp
 
@@ -41,11 +41,11 @@ include hsp
 theorem operand_direct {b : Fun.Term} (hd : pureD p (goodClauses p) b = true) {ty0 : Core.Ty}
     {st : CompileState}
     {B : Core.Term} {st' : CompileState} (hcB : compile b ty0 st = .ok (B, st'))
-    (hst : StOK q st') (htn : TermNames b st) (he : EnvRel (GP p) q n (fv b) env ρ0)
+    (hst : StOK q st') (htn : TermNames b st) (he : EnvRel (GP p) p q n (fv b) env ρ0)
     (hbd : BoundOn (tfvTerm B []) ρ0) (hag : AgreeOn (tfvTerm B []) ρ0 ρ)
     (hncB : Core.isCodata q.codataTypes B.ty = false)
     (hF : ∀ ρ' n' z τ v V, n ≤ n' → SigExt n ρ ρ' → Core.Env.lookup ρ' z = .ok V →
-      VRel (GP p) q n v V → (z.name = sig → z.id < n') →
+      VRel (GP p) p q n v V → (z.name = sig → z.id < n') →
       Chunk p q (R p q) true cp μ (.ret v K) ⟨Sx (.var .prd z τ), ρ', out, n'⟩) :
     Chunk p q (R p q) false cp μ (.eval b env K) ⟨Sx B, ρ, out, n⟩ := by
   rcases direct_sim (p := p) (goodClauses p) (goodClauses_find p) b hd env K ty0 st B st' n ρ0 ρ n
@@ -66,9 +66,9 @@ theorem operand_default {b : Fun.Term} (hg : good p b = true) {ty0 : Core.Ty} {s
     {B : Core.Term} {st' : CompileState} (hcB : compile b ty0 st = .ok (B, st'))
     (hdef : compile b ty0 st = defaultCompile (compileWithCont b) ty0 st)
     (hnc0 : Core.isCodata q.codataTypes ty0 = false)
-    (hst : StOK q st') (htn : TermNames b st) (he : EnvRel (GP p) q n (fv b) env ρ0)
+    (hst : StOK q st') (htn : TermNames b st) (he : EnvRel (GP p) p q n (fv b) env ρ0)
     (hbd : BoundOn (tfvTerm B []) ρ0) (hag : AgreeOn (tfvTerm B []) ρ0 ρ)
-    (hK : ∀ τ, KRel (GP p) q (n + 1) K
+    (hK : ∀ τ, KRel (GP p) p q (n + 1) K
       (.mutilde ρ (Core.sigmaName n) (Sx (.var .prd (Core.sigmaName n) τ)))) :
     Chunk p q (R p q) false cp μ (.eval b env K) ⟨Sx B, ρ, out, n⟩ := by
   rw [hdef, defaultCompile_eq] at hcB
@@ -117,19 +117,21 @@ theorem operand_default {b : Fun.Term} (hg : good p b = true) {ty0 : Core.Ty} {s
         exact mem_tfv_mu_of h1 (by simpa using h2))
 
 /-- a `label` in operand position -/
-theorem operand_label (hcod : CodOK p q) {a : String} {t : Fun.Term} {lty : Option Fun.Ty}
-    (hg : good p (.label a t lty) = true) {ty0 : Core.Ty} {st : CompileState}
+theorem operand_label {a : String} {t : Fun.Term} {lty : Option Fun.Ty}
+    (hg : good p (.label a t lty) = true) (hlty : lty = some .i64) {ty0 : Core.Ty} {st : CompileState}
     {B : Core.Term} {st' : CompileState} (hcB : compile (.label a t lty) ty0 st = .ok (B, st'))
     (hst : StOK q st') (htn : TermNames (.label a t lty) st)
-    (he : EnvRel (GP p) q n (fv (.label a t lty)) env ρ0)
+    (he : EnvRel (GP p) p q n (fv (.label a t lty)) env ρ0)
     (hbd : BoundOn (tfvTerm B []) ρ0) (hag : AgreeOn (tfvTerm B []) ρ0 ρ)
-    (hK : ∀ τ, KRel (GP p) q (n + 1) K
+    (hK : ∀ τ, KRel (GP p) p q (n + 1) K
       (.mutilde ρ (Core.sigmaName n) (Sx (.var .prd (Core.sigmaName n) τ)))) :
     Chunk p q (R p q) false cp μ (.eval (.label a t lty) env K) ⟨Sx B, ρ, out, n⟩ := by
   rw [c_label] at hcB
   simp only [good, Bool.and_eq_true] at hg
-  obtain ⟨hgt, hncd⟩ := hg
-  obtain ⟨τ, rfl, hnc⟩ := hcod.ncd hncd
+  obtain ⟨hgt, _⟩ := hg
+  subst hlty
+  have hnc : Core.isCodata q.codataTypes (compileTy .i64) = false := rfl
+  generalize hτ : Fun.Ty.i64 = τ at hcB hnc htn he ⊢
   have hlty : True := trivial
   cases hlty with
   | intro =>
@@ -166,7 +168,7 @@ theorem operand_label (hcod : CodOK p q) {a : String} {t : Fun.Term} {lty : Opti
           simp only [occTerm, List.mem_singleton] at hb
           subst hb
           exact .inr ⟨ha_sig, ha_used⟩
-      · exact EnvRel.bind (by simpa [fv] using he.mono (Nat.le_succ n)) (.cont (hK (compileTy τ)))
+      · exact EnvRel.bind (by simpa [fv] using he.mono (Nat.le_succ n)) (.cont (.nc (hK (compileTy τ))))
       · exact .mk (cv := .mutilde ρ (Core.sigmaName n)
           (Sx (.var .prd (Core.sigmaName n) (compileTy τ))))
           (by simp [Core.cnsVal, lookup_cons]) (hK _) trivial
